@@ -139,6 +139,23 @@ theorem mem_marshalCerts_length (cs : List Bytes) (c : Bytes) (h : c ∈ cs) : c
     · subst e; omega
     · have := ih e; omega
 
+/-- the marshal loop writes at least the 4-byte length prefix for every certificate -/
+theorem marshalCerts_length_ge (cs : List Bytes) : 4 * cs.length ≤ (marshalCerts cs).length := by
+  induction cs with
+  | nil => simp [marshalCerts]
+  | cons x xs ih =>
+    simp only [marshalCerts, put32, List.length_append, List.length_cons, List.length_nil]
+    omega
+
+/-- hence a certificate list that parses passes the check in front of `make`: the remaining input holds at
+    least 4 bytes per announced certificate -/
+theorem unmarshalCerts_count_le (n : Nat) (d : Bytes) (cs : List Bytes) (h : unmarshalCerts n d = some cs) :
+    4 * n ≤ d.length := by
+  obtain ⟨h1, h2, _⟩ := unmarshalCerts_sound n d cs h
+  have := marshalCerts_length_ge cs
+  rw [h2, h1] at this
+  exact this
+
 /-- after the announced certificates nothing may follow: a certificate list that parses does not parse
     with anything appended -/
 theorem unmarshalCerts_no_trailing (n : Nat) (d t : Bytes) (cs : List Bytes) (h : unmarshalCerts n d = some cs)
@@ -191,7 +208,8 @@ theorem unmarshal_marshal (s : SState) (hv : s.vers < 65536) (hs : s.suite < 655
   rw [if_neg (by simp only [List.length_append, List.length_cons]; omega), if_neg (by simp), List.drop_left, List.take_left]
   simp only [List.length_cons, List.getElem?_cons_zero, List.getElem?_cons_succ,
     Option.getD_some, List.drop_succ_cons, List.drop_zero, get16_put16 certs.length hn]
-  rw [if_neg (by omega), unmarshalCerts_marshalCerts certs hc]
+  have hge := marshalCerts_length_ge certs
+  rw [if_neg (by omega), if_neg (by omega), unmarshalCerts_marshalCerts certs hc]
 
 /-- the same with the well-formedness condition as one predicate -/
 theorem unmarshal_marshal_wf (s : SState) (h : WF s) : unmarshal (marshal s) = some s :=
@@ -219,14 +237,16 @@ theorem marshal_unmarshal (b : Bytes) (s : SState) (h : unmarshal b = some s) : 
           · simp only [List.getElem?_cons_zero, List.getElem?_cons_succ, Option.getD_some, List.drop_succ_cons,
               List.drop_zero] at h
             split at h
-            · rename_i cs hcs
-              cases h
-              obtain ⟨c1, c2, _⟩ := unmarshalCerts_sound _ _ _ hcs
-              have htl : (List.take (get16 b4 b5) rest).length = get16 b4 b5 := by
-                rw [List.length_take]; omega
-              simp only [marshal, htl, c1, c2, put16_get16, List.cons_append, List.nil_append]
-              rw [show n1 :: n0 :: r2 = List.drop (get16 b4 b5) rest from hr.symm, List.take_append_drop]
             · simp at h
+            · split at h
+              · rename_i cs hcs
+                cases h
+                obtain ⟨c1, c2, _⟩ := unmarshalCerts_sound _ _ _ hcs
+                have htl : (List.take (get16 b4 b5) rest).length = get16 b4 b5 := by
+                  rw [List.length_take]; omega
+                simp only [marshal, htl, c1, c2, put16_get16, List.cons_append, List.nil_append]
+                rw [show n1 :: n0 :: r2 = List.drop (get16 b4 b5) rest from hr.symm, List.take_append_drop]
+              · simp at h
 
 /-- what the parser returns always satisfies the bounds of the round trip: 16-bit version and suite, master
     secret and certificate count below 2^16, certificates below 2^32 bytes -/
@@ -241,16 +261,18 @@ theorem unmarshal_wf (b : Bytes) (s : SState) (h : unmarshal b = some s) : WF s 
       split at h
       · simp at h
       · split at h
-        · rename_i cs hcs
-          cases h
-          obtain ⟨c1, _, c3⟩ := unmarshalCerts_sound _ _ _ hcs
-          refine ⟨get16_lt _ _, get16_lt _ _, ?_, ?_, c3⟩
-          · show (List.take _ _).length < 65536
-            rw [List.length_take]
-            exact Nat.lt_of_le_of_lt (Nat.min_le_left _ _) (get16_lt _ _)
-          · show cs.length < 65536
-            rw [c1]; exact get16_lt _ _
         · simp at h
+        · split at h
+          · rename_i cs hcs
+            cases h
+            obtain ⟨c1, _, c3⟩ := unmarshalCerts_sound _ _ _ hcs
+            refine ⟨get16_lt _ _, get16_lt _ _, ?_, ?_, c3⟩
+            · show (List.take _ _).length < 65536
+              rw [List.length_take]
+              exact Nat.lt_of_le_of_lt (Nat.min_le_left _ _) (get16_lt _ _)
+            · show cs.length < 65536
+              rw [c1]; exact get16_lt _ _
+          · simp at h
 
 /-- T1 `unmarshal_iff`: the accepted inputs, stated outright: `b` is read as `s` exactly when `s` is within
     the field bounds and `b` is its serialization. -/
@@ -307,7 +329,8 @@ theorem no_trailing_bytes (b t : Bytes) (s : SState) (h : unmarshal b = some s) 
   rw [if_neg (by simp only [List.length_append, List.length_cons]; omega), if_neg (by simp), List.drop_left, List.take_left]
   simp only [List.length_cons, List.getElem?_cons_zero,
     List.getElem?_cons_succ, Option.getD_some, List.drop_succ_cons, List.drop_zero, get16_put16 certs.length hn]
-  rw [if_neg (by omega), hcs]
+  have hge := marshalCerts_length_ge certs
+  rw [if_neg (by omega), if_neg (by simp only [List.length_append]; omega), hcs]
 
 /-- the truncation `marshal` performs outside the bounds is real: a master secret of 65536 bytes is
     written with length field 0, and the parser then rejects the result (a state outside `WF` does not
